@@ -20,7 +20,12 @@ type genTarget struct {
 	pkgs  []string
 }
 
-func shortPkg(path string) string { return path[strings.LastIndex(path, "/")+1:] }
+func shortPkg(path string) string {
+	if strings.HasPrefix(path, freshModule+"/") {
+		return strings.TrimPrefix(path, freshModule+"/") // regen/testpb, corpus/maps: fresh programs are named apart from checked-in ones
+	}
+	return path[strings.LastIndex(path, "/")+1:]
+}
 
 // closureInput builds the symbolic `input` parameter and binds input.Message.Interface() to *M
 func (c *Ctx) setupClosure(lit *ast.FuncLit, st *State, ms *MsgSchema) (xref string) {
